@@ -167,5 +167,45 @@ package main
 //@   call ReadFull#2 assert [C14] ref($0) == reader && arr($1) == arr(rawFrame) && off($1) == off(rawFrame) + 5 && len($1) == len(rawFrame) - 5 && message != "clear"
 //@   call Process#1 assert [C14,C13] $0 == processor && $1 == rawFrame
 //@   check [C10] sitehappened("NewCPTVFileRecorder", 1) ==> ncalls("Stop") == 1 && callarg("Stop", 1, 0) == siteres("NewCPTVFileRecorder", 1)
+//@   ensures frameLogIntervalFirstMin >= 1 && frameLogInterval >= 1
 //@   check [C14] result != nil
 //@   check [C13,C14] sitehappened("NewMotionProcessor", 1) ==> ncalls("ReadFull") == 2 * ncalls("Process") + ncalls("Reset") + 1 || ncalls("ReadFull") == 2 * ncalls("Process") + ncalls("Reset") + 2
+
+// runMain: the start-up clean-up of the output directory succeeded before the
+// daemon first listens for the camera; every accepted connection is handed to
+// handleConn together with the parsed configuration.
+//@ func runMain
+//@   mode permissive
+//@   requires frameLogIntervalFirstMin >= 1 && frameLogInterval >= 1
+//@   call ParseConfig#1 given_after $result.1 == nil ==> $result.0 != nil
+//@   call Detect#1 given_after $result != nil
+//@   call deleteTempFiles#1 assert [C10] $0 == conf.OutputDir && ncalls("Listen") == 0
+//@   loop 1 invariant conf != nil && frameLogIntervalFirstMin >= 1 && frameLogInterval >= 1 && ncalls("deleteTempFiles") == 1
+//@   call Listen#1 assert [C10] ncalls("deleteTempFiles") == 1 && callres("deleteTempFiles", 1) == nil
+//@   call handleConn#1 assert [C11,C14] $1 == conf && $0 == siteres("Accept", 1).0 && siteres("Accept", 1).1 == nil
+
+// Package initialisation: the pattern that maps a temporary recording name to its
+// final name strips exactly a trailing ".temp"; the frame-log intervals start positive.
+//@ func init
+//@   mode permissive
+//@   call MustCompile#1 assert [C10] $0 == "(.+)\\.temp$"
+//@   check [C10] sitehappened("MustCompile", 1) ==> reTempName == siteres("MustCompile", 1) && frameLogIntervalFirstMin == 15 && frameLogInterval == 300
+
+// Configuration: every section value read from config.toml reaches the runtime
+// Config unchanged (C11); validation of max-secs >= min-secs happens (C03).
+//@ func ParseConfig
+//@   mode permissive
+//@   allocates
+//@   check [C11] result1 == nil ==> result0 != nil && sitehappened("NewConfig", 1) && sitehappened("NewConfig", 2) && siteres("NewConfig", 1).1 == nil && siteres("NewConfig", 2).1 == nil
+//@   check [C11] sitehappened("Unmarshal", 4) ==> result1 == nil ==> result0.ConfigDir == configFolder && result0.DeviceID == deviceConfig.ID && result0.DeviceName == deviceConfig.Name && result0.FrameInput == leptonConfig.FrameOutput && result0.OutputDir == thermalRecorderConfig.OutputDir && result0.MinDiskSpace == thermalRecorderConfig.MinDiskSpaceMB && !result0.Verbose
+//@   check [C11] result1 == nil && sitehappened("NewConfig", 1) && sitehappened("NewConfig", 2) ==> result0.Recorder.MinSecs == siteres("NewConfig", 1).0.MinSecs && result0.Recorder.MaxSecs == siteres("NewConfig", 1).0.MaxSecs && result0.Recorder.PreviewSecs == siteres("NewConfig", 1).0.PreviewSecs && result0.Recorder.ConstantRecorder == siteres("NewConfig", 1).0.ConstantRecorder
+//@   check [C11,C05] result1 == nil && sitehappened("NewConfig", 1) && sitehappened("NewConfig", 2) ==> result0.Throttler.Activate == siteres("NewConfig", 2).0.Activate && result0.Throttler.BucketSize == siteres("NewConfig", 2).0.BucketSize && result0.Throttler.MinRefill == siteres("NewConfig", 2).0.MinRefill
+//@   check [C11] sitehappened("Unmarshal", 4) ==> result1 == nil ==> result0.Location == locationConfig
+//@   check [C11] result1 == nil ==> sitehappened("Unmarshal", 4)
+
+//@ func (c *Config) LoadMotionConfig
+//@   mode permissive
+//@   requires c != nil
+//@   check [C11] happened("NewConfig", 1) ==> callarg("NewConfig", 1, 1) == cameraModel && callarg("NewConfig", 1, 0) == callres("New", 1).0 && callarg("New", 1, 0) == old(c.ConfigDir)
+//@   check [C11] result == nil ==> happened("NewConfig", 1)
+//@   check [C11] happened("NewConfig", 1) ==> result == nil ==> callres("NewConfig", 1).1 == nil && c.Motion == deref(callres("NewConfig", 1).0)
